@@ -656,53 +656,125 @@ ONESHOT = {
 }
 
 
+MATERIALISE = {'list', 'set', 'tuple', 'sorted', 'dict', 'frozenset'}
+NONCONSUMING = {'isinstance', 'hasattr', 'callable', 'len', 'type', 'id'}
+
+
+def iterable_params(fn):
+    a = fn.args
+    out = []
+    for p in a.posonlyargs + a.args + a.kwonlyargs:
+        ann = au.src(p.annotation) if p.annotation is not None else ''
+        if 'Iterable' in ann:
+            out.append(p.arg)
+    return out
+
+
+def consuming_uses(node, name):
+    """Loads of `name` inside `node` that traverse it (anything but an
+    identity/type test)."""
+    au.set_parents(node)
+    out = []
+    for x in ast.walk(node):
+        if not (isinstance(x, ast.Name) and x.id == name
+                and isinstance(x.ctx, ast.Load)):
+            continue
+        par = getattr(x, '_parent', None)
+        if isinstance(par, ast.Compare) and all(
+                isinstance(op, (ast.Is, ast.IsNot)) for op in par.ops):
+            continue
+        if isinstance(par, ast.Call) and au.call_name(
+                par) in NONCONSUMING and x in par.args:
+            continue
+        out.append(x)
+    return out
+
+
+def oneshot_function(R, f, param, rule_where=None):
+    """Along every path: at most one traversal of `param` before it is
+    rebound to something materialised."""
+    fn = f.node
+    try:
+        plist = pa.function_paths(fn, limit=4000)
+    except pa.PathExplosion:
+        R.undecided('R-ONESHOT', f.qualname, f'argument `{param}`',
+                    'path explosion')
+        return
+    au.set_parents(fn)
+    worst = None
+    for path in plist:
+        uses = []
+        for it in path:
+            if it[0] == 'stmt':
+                node = it[1]
+            elif it[0] == 'test':
+                node = it[1]
+            elif it[0] == 'loop' and isinstance(it[1], ast.For) and \
+                    it[2] >= 1:
+                node = it[1].iter
+            else:
+                continue
+            us = consuming_uses(node, param)
+            for u in us:
+                # inside a loop that is not the traversal itself the use
+                # is repeated
+                anc = getattr(u, '_parent', None)
+                rep = 1
+                while anc is not None and anc is not fn:
+                    if isinstance(anc, (ast.For, ast.While)) and not any(
+                            u is y for y in ast.walk(
+                                getattr(anc, 'iter', anc.test
+                                        if isinstance(anc, ast.While)
+                                        else anc))):
+                        rep = 2
+                    anc = getattr(anc, '_parent', None)
+                uses.extend([u] * rep)
+            if it[0] == 'stmt' and isinstance(
+                    node, (ast.Assign, ast.AnnAssign)) and \
+                    param in au.assigned_names(node):
+                break
+        if len(uses) > 1 and (worst is None or len(uses) > len(worst[0])):
+            worst = (uses, path)
+    if worst:
+        uses, path = worst
+        R.violation(
+            'R-ONESHOT', 'traversed-twice', f.qualname, param,
+            f'the Iterable argument `{param}` is traversed '
+            f'{len(uses)} times on one path (lines '
+            f'{sorted({u.lineno for u in uses})}) before it is rebound: '
+            'a generator or other one-shot iterator is exhausted by the '
+            'first traversal, so the later one sees no (or the '
+            'remaining) elements', unit=f.unit.rel,
+            line=uses[1].lineno, path=pa.describe(path))
+    else:
+        R.holds('R-ONESHOT', f.qualname,
+                f'iterable argument `{param}` is traversed at most once '
+                f'on each of {len(plist)} path(s)')
+
+
 def r_oneshot(P, R):
     """An argument declared as an Iterable is traversed at most once
-    before it is rebound: a second traversal sees an exhausted iterator."""
+    before it is rebound: a second traversal sees an exhausted iterator.
+    Checked for the listed entry points (floor) and for every function in
+    the scope of the property that declares an Iterable parameter."""
+    from .. import scope
     n = 0
+    done = set()
     for q in ONESHOT.get(R.prop, []):
         f = P.func(q)
-        for a in f.node.args.args:
-            ann = au.src(a.annotation) if a.annotation is not None else ''
-            if 'Iterable' not in ann:
-                continue
+        for prm in iterable_params(f.node):
             n += 1
-            uses = []
-            rebound_at = None
-            stmts = sorted((x for x in au.walk_no_defs(f.node)
-                            if isinstance(x, ast.stmt) and x is not f.node),
-                           key=lambda x: (x.lineno, x.col_offset))
-            for st in stmts:
-                if rebound_at is not None and st.lineno > rebound_at:
-                    break
-                if isinstance(st, (ast.If, ast.For, ast.While, ast.Try,
-                                   ast.With, ast.Match)):
-                    heads = [getattr(st, 'test', None),
-                             getattr(st, 'iter', None)]
-                    nodes = [h for h in heads if h is not None]
-                else:
-                    nodes = [st]
-                for nd in nodes:
-                    for x in ast.walk(nd):
-                        if isinstance(x, ast.Name) and x.id == a.arg and \
-                                isinstance(x.ctx, ast.Load):
-                            uses.append(x)
-                if isinstance(st, ast.Assign) and a.arg in \
-                        au.assigned_names(st):
-                    rebound_at = st.lineno
-            if len(uses) > 1:
-                R.violation(
-                    'R-ONESHOT', 'traversed-twice', q, a.arg,
-                    f'the Iterable argument `{a.arg}` is used '
-                    f'{len(uses)} times (lines '
-                    f'{[u.lineno for u in uses]}) before it is rebound: '
-                    'a generator or other one-shot iterator is exhausted '
-                    'by the first use, so the operation proper runs on '
-                    'the remaining (or no) elements', unit=f.unit.rel,
-                    line=uses[1].lineno)
-            else:
-                R.holds('R-ONESHOT', q,
-                        f'iterable argument `{a.arg}` is traversed once')
+            done.add((q, prm))
+            oneshot_function(R, f, prm)
+    funcs = scope.functions_of(P, R.prop) if R.prop in scope.ENTRY else ()
+    for q in sorted(funcs):
+        f = P.func(q, required=False)
+        if f is None:
+            continue
+        for prm in iterable_params(f.node):
+            if (q, prm) not in done:
+                done.add((q, prm))
+                oneshot_function(R, f, prm)
     R.floor(f'R-ONESHOT iterable parameters for {R.prop}', n,
             {'C03': 6, 'C13': 2}.get(R.prop, 0))
 r_oneshot.NAME = 'R-ONESHOT'
